@@ -294,16 +294,65 @@ def r15_4(facts, res, rule="R15-4"):
                     if "guard" in arm and variants_of_pat(arm["pat"]) == ["DocumentType"] and \
                             any(m.get("k") == "Call" and str(m["f"].get("path", "")).endswith("::Err") for m in walk(arm["body"])):
                         conds.append(arm["guard"])
+                    # the condition is evaluated as a truth table over D = "a document type is present" and E = "a root element
+                    # is present": the refusal must be D || E (the acceptance !D && !E), in whatever spelling
                     for cond in conds:
-                        calls = [m["m"] for m in walk(cond) if m.get("k") == "MethodCall"]
-                        ops = [m["op"] for m in walk(cond) if m.get("k") == "Binary"]
-                        if "document_declaration" in calls and "document_element" in calls:
-                            ok = "&&" not in ops
-                            why = "the refusal is weakened by a conjunction (%s)" % ops
+                        t = _truth(cond)
+                        if t is not None:
+                            ok = all(t[(d, e_)] == (d or e_) for d in (False, True) for e_ in (False, True))
+                            why = "the refusal is not `doctype present || root element present` (it is true for %s)" % \
+                                  sorted(k for k, v in t.items() if v)
+                    body = arm["body"]
+                    if not conds and str(n.get("ty")) == "bool":
+                        t = _truth(body)
+                        if t is not None:
+                            used = False
+                            for l in walk(f["body"]):
+                                if l.get("s") == "Let" and l.get("init") is n and l["pat"].get("p") == "Bind":
+                                    lid = l["pat"]["lid"]
+                                    for i in walk(f["body"]):
+                                        if i.get("k") == "If" and i["cond"].get("k") == "Unary" and i["cond"].get("op") == "!" and \
+                                                i["cond"]["a"].get("lid") == lid and \
+                                                any(m.get("k") == "Call" and str(m["f"].get("path", "")).endswith("::Err") for m in walk(i["then"])):
+                                            used = True
+                            ok = used and all(t[(d, e_)] == (not d and not e_) for d in (False, True) for e_ in (False, True))
+                            why = "the acceptance test is not `no doctype && no root element`, or its negative does not lead to Err"
     res.oblige(1, ok)
     if not ok:
         res.add(Finding(rule, "XmlDocument::insert_by_id|DocumentType", "XmlDocument::insert_by_id: %s - a document type can be placed behind the root "
                         "element and the serialisation is not a document" % why, f["file"], f["line"], {}))
+
+
+def _truth(e):
+    """truth table {(D, E): value} of a boolean expression over document_declaration().is_some()/is_none() and
+    document_element().is_ok()/is_err(), or None when it contains anything else"""
+    def ev(x, d, e_):
+        k = x.get("k")
+        if k == "Block" and not x.get("stmts") and "expr" in x:
+            return ev(x["expr"], d, e_)
+        if k == "Unary" and x.get("op") == "!":
+            v = ev(x["a"], d, e_)
+            return None if v is None else (not v)
+        if k == "Binary" and x.get("op") in ("&&", "||"):
+            a, b = ev(x["a"], d, e_), ev(x["b"], d, e_)
+            if a is None or b is None:
+                return None
+            return (a and b) if x["op"] == "&&" else (a or b)
+        if k == "MethodCall" and x.get("m") in ("is_some", "is_none", "is_ok", "is_err") and not x.get("args"):
+            r = x["recv"]
+            if r.get("k") == "MethodCall" and r.get("m") == "document_declaration":
+                return d if x["m"] in ("is_some", "is_ok") else (not d)
+            if r.get("k") == "MethodCall" and r.get("m") == "document_element":
+                return e_ if x["m"] in ("is_some", "is_ok") else (not e_)
+        return None
+    out = {}
+    for d in (False, True):
+        for e_ in (False, True):
+            v = ev(e, d, e_)
+            if v is None:
+                return None
+            out[(d, e_)] = v
+    return out
 
 
 def r15_5(facts, res, rule="R15-5"):
